@@ -5,3 +5,4 @@ import Driver.Ast
 import Driver.Html
 import Driver.Tree
 import Driver.Toc
+import Driver.Latex
